@@ -212,14 +212,14 @@ class AutoQKHyperModel(HyperModel):
       index = 0
       q_list = list(kq.keys())
       q_dict = kq
-    elif "kernel" in head:
+    elif head.endswith("kernel"):
       # kernel quantizers
       field_name = "kernel"
       kq = self.quantization_config["kernel"]
       index = 0
       q_list = list(kq.keys())
       q_dict = kq
-    elif "bias" in head:
+    elif head.endswith("bias"):
       # bias quantizers
       field_name = "bias"
       bq = self.quantization_config["bias"]
@@ -240,7 +240,7 @@ class AutoQKHyperModel(HyperModel):
       index = 2
       q_list = list(kq.keys())
       q_dict = kq
-    elif "recurrent_activation" in head: # limit is same as kernel
+    elif head.endswith("recurrent_activation"): # limit is same as kernel
       # recurrent activation quantizers
       field_name = "recurrent_activation"
       raq = self.quantization_config["recurrent_activation"]
